@@ -82,6 +82,13 @@ for name, code in sorted(statuses.items()):
             last_case = None
             for ln in txt[:m.start()].splitlines():
                 if ln.startswith("CASE "): last_case = ln
+            # a deliberate panic raised by a harness resolver (marked) that killed the
+            # process: thunder called that user code and did not contain the panic
+            if "VERIF-INJECTED-PANIC" in m.group(1):
+                parts = tail.split("\n\ngoroutine ")
+                gor = parts[1] if len(parts) > 1 else tail
+                if any(classify_file(fm.group(1)) == "thunder" for fm in (FRAME_FILE.match(l) for l in gor.splitlines()) if fm):
+                    first = "thunder"
             if first == "thunder" or (first is None and "/repo/" in tail):
                 key = "crash"
                 path = write_replay("crash-" + name, {"class": "crash", "crash": m.group(1), "last_case": last_case, "log_tail": tail})
